@@ -16,9 +16,22 @@ def exTree : Tree Int Int :=
     size := 15, gen := 15, nextId := 3 }
 /-- writers: the separator in the root and an entry of the right leaf -/
 def exPuts : List (Int × Int) := [(80, 801), (120, 1201)]
-/-- readers: a `Get` in the same leaf as a writer's key, a `Contains` of an absent key, an iterator step
-parked on `(node 0, slot 1)` = key 20 with a stale cursor generation -/
-def exReads : List (Op Int Int) := [.get 90, .contains 85, .iter 0 1 4 20]
+/-- `Range(Unbounded, Excluded 80)`: the keys 10 … 70; the first key beyond its far bound is the written key 80 (the
+cursor climbs to the root and reads `keys[0]` there, never `values[0]`) -/
+def exRange : Op Int Int := .scan true .first 0 (some (.lt, 80)) 100
+/-- `RangeReverse(Excluded 120, Unbounded)`: the keys 150, 140, 130; the first key beyond its far bound is the written
+key 120 in the same leaf -/
+def exRangeRev : Op Int Int := .scan false .last 120 (some (.gt, 120)) 100
+/-- `Range(Included 90, Included 110)`: the keys 90, 100, 110 *between* the two written keys — 80 lies before its near
+bound (the seek descends past it, comparing keys only), 120 is the first key beyond its far bound in the same leaf -/
+def exMid : Op Int Int := .scan true .ge 90 (some (.le, 110)) 100
+/-- … and that is what the two regenerated `switch` tables of `Range` / `RangeReverse` make of these bounds -/
+theorem exRange_eq : scanOf false ⟨some .unb, 0⟩ ⟨some .excl, 80⟩ 100 = some exRange ∧
+    scanOf true ⟨some .excl, 120⟩ ⟨some .unb, 0⟩ 100 = some exRangeRev ∧
+    scanOf false ⟨some .incl, 90⟩ ⟨some .incl, 110⟩ 100 = some exMid := ⟨rfl, rfl, rfl⟩
+/-- readers: a `Get` in the same leaf as a writer's key, a `Contains` of an absent key, and three range readers whose
+bounds are adjacent to the written keys -/
+def exReads : List (Op Int Int) := [.get 90, .contains 85, exRange, exMid, exRangeRev]
 
 theorem exCmp_sw : StrictWeak exCmp := ⟨by intro a b; unfold exCmp; omega, by intro a b c; unfold exCmp; omega⟩
 
@@ -33,9 +46,11 @@ theorem exTree_wf : WF exCmp exTree := by
     unfold Sorted; decide
   · simp [exTree, toList_mk, inorder, rest]
 
+theorem exTree_inv : Inv exCmp exTree := ⟨exTree_wf, exTree_nodup, by simp [exTree, ids]⟩
+
 /-- the hypotheses are satisfiable -/
 theorem exHyp : ConcHyp exCmp exTree exPuts exReads := by
-  refine ⟨exCmp_sw, exTree_nodup, by decide, ?_, by decide, ?_⟩
+  refine ⟨exCmp_sw, exTree_nodup, by decide, ?_, by decide, by decide, ?_, ?_, fun _ => exTree_inv⟩
   · intro p hp
     simp only [exPuts, List.mem_cons, List.not_mem_nil, or_false] at hp
     rcases hp with rfl | rfl
@@ -44,23 +59,50 @@ theorem exHyp : ConcHyp exCmp exTree exPuts exReads := by
     · simp only [contains, exTree]
       rw [lookup_child (i := 1) (c := .mk 1 [(90, 900), (100, 1000), (110, 1100), (120, 1200), (130, 1300), (140, 1400), (150, 1500)] [])
         (by decide) rfl, lookup_found (i := 3) (by decide)]; rfl
-  · intro x i g ck hm
-    simp only [exReads, List.mem_cons, List.not_mem_nil, or_false] at hm
-    rcases hm with hm | hm | hm
-    · cases hm
-    · cases hm
-    · cases hm
-      exact ⟨(20, 200), by simp [findNode, pathTo, pathIn, exTree, Node.kvs], by decide⟩
+  · -- the keys inside the bounds of the three range readers (`< 80`; `≥ 90` and `≤ 110`; `> 120`) are not the written ones
+    intro r hr hns p hp k' _ hin hnear
+    simp only [exReads, List.mem_cons, List.not_mem_nil, or_false] at hr
+    simp only [exPuts, List.mem_cons, List.not_mem_nil, or_false] at hp
+    rcases hr with rfl | rfl | rfl | rfl | rfl
+    · simp [Op.isSearch] at hns
+    · simp [Op.isSearch] at hns
+    · have hin' : k' - 80 < 0 := by
+        simp only [exRange, inRangeOf, evalOp, exCmp] at hin
+        exact of_decide_eq_true hin
+      rcases hp with rfl | rfl <;> (show _ - k' ≠ (0 : Int)) <;> omega
+    · have hin' : k' - 110 ≤ 0 := by
+        simp only [exMid, inRangeOf, evalOp, exCmp] at hin
+        exact of_decide_eq_true hin
+      have hnear' : ¬ (90 - k' > 0) := by
+        simp only [exMid, nearOp, nearOf, seekFirstGreaterOrEqualStep, exCmp, Bool.not_eq_true'] at hnear
+        exact of_decide_eq_false hnear
+      rcases hp with rfl | rfl <;> (show _ - k' ≠ (0 : Int)) <;> omega
+    · have hin' : k' - 120 > 0 := by
+        simp only [exRangeRev, inRangeOf, evalOp, exCmp] at hin
+        exact of_decide_eq_true hin
+      rcases hp with rfl | rfl <;> (show _ - k' ≠ (0 : Int)) <;> omega
+  · intro r hr hns
+    simp only [exReads, List.mem_cons, List.not_mem_nil, or_false] at hr
+    rcases hr with rfl | rfl | rfl | rfl | rfl <;> first | rfl | trivial
 
-/-- a complete interleaving of the five goroutines (round robin until everybody has returned) -/
+/-- a complete interleaving of the seven goroutines (round robin until everybody has returned) -/
 def exSched : List Nat :=
-  [0, 1, 2, 3, 4, 0, 1, 2, 3, 4, 0, 1, 2, 3, 4, 0, 1, 2, 3, 4, 1, 2, 3, 1, 2, 3, 1, 2, 3, 1, 2, 3, 1, 2, 3, 1, 1, 1, 1, 1,
-   1, 1]
+  [0, 1, 2, 3, 4, 5, 6, 0, 1, 2, 3, 4, 5, 6, 0, 1, 2, 3, 4, 5, 6, 0, 1, 2, 3, 4, 5, 6, 1, 2, 3, 4, 5, 6, 1, 2, 3, 4, 5, 6,
+   1, 2, 3, 4, 5, 6, 1, 2, 3, 4, 5, 6, 1, 2, 3, 4, 5, 6, 1, 4, 5, 6, 1, 4, 5, 6, 1, 4, 5, 6, 1, 4, 5, 6, 1, 4, 5, 6, 1, 4,
+   5, 6, 1, 4, 5, 6, 4, 5, 6, 4, 5, 6, 4, 5, 6, 4, 5, 6, 4, 5, 6, 4, 5, 6, 4, 5, 6, 4, 5, 6, 4, 5, 6, 4, 5, 6, 4, 5, 4, 5,
+   4, 5, 4, 5, 4, 5, 4, 5, 4, 4, 4, 4, 4, 4, 4, 4, 4, 4, 4, 4, 4, 4, 4, 4, 4, 4, 4, 4, 4, 4, 4, 4]
 
-/-- what a goroutine has returned -/
+/-- what a goroutine has returned (a range reader: the values it was handed) -/
 def exResult : PC Int Int → Option (Res Int)
   | .done r => some r
+  | .it .fin st => some (.vals (st.out.map (·.2)))
   | _ => none
 
+/-- the value slots a goroutine, run alone on the memory of `exTree`, reads -/
+def exValReads (op : Op Int Int) : List Loc :=
+  (solo exCmp op 1000 (memOf exTree) (start op)).1.filterMap fun a =>
+    match a.loc with
+    | .node x (.val i) => some (.node x (.val i))
+    | _ => none
 
 end Juniper.Proofs.TreeAccess
